@@ -249,6 +249,23 @@ def run_generated(mod, ctx, known, tier, seed, examples):
 
 
 def shard_worker(arg):
+    """one shard; with MHLVERIF_COV=<dir> (a measuring aid, see tools/coverage_report.py) line/branch coverage of the
+    ascmhl package under this shard is saved into <dir>"""
+    covdir = os.environ.get("MHLVERIF_COV")
+    if not covdir:
+        return _shard_worker(arg)
+    import coverage
+
+    cov = coverage.Coverage(data_file=os.path.join(covdir, "cov.%s.%d.%d" % (arg[0], arg[3], os.getpid())), branch=True, source=[os.path.join(REPO, "ascmhl")])
+    cov.start()
+    try:
+        return _shard_worker(arg)
+    finally:
+        cov.stop()
+        cov.save()
+
+
+def _shard_worker(arg):
     mod_name, tier, seed, shard, nshards, examples, budget_s = arg
     try:
         mod = importlib.import_module("mhlverif.props." + mod_name)
